@@ -1531,3 +1531,212 @@ def generate_methods(fns, gen_dir, write_if_changed):
     out.append("end\nend Gen\n")
     write_if_changed(os.path.join(gen_dir, "MethodKern.lean"), "\n".join(out))
     return sig
+
+
+# ---------------------------------------------------------------------------------------------------------------------
+# the differential operators of spherical/modes/derivatives.py: the loop of each method as a kernel on a flat memory
+# ---------------------------------------------------------------------------------------------------------------------
+DIFF_HEADER = """import SphericalVerif.Gen.Indexing
+import SphericalVerif.Model.FlatMem
+/-! GENERATED by vlib/py2lean_kern.py from spherical/modes/derivatives.py (the `for ell in …` loops of Lsquared, Lz, Lplus,
+    Lminus, Rplus, Rminus and the metadata assignments of Rplus / Rminus) and spherical/modes/utilities.py (`index`) -- do
+    not edit.  Regenerated on every check.
+
+    Each method's loop as a function on a flat memory, for ONE element of the leading axes (`a[..., i]` is read as `a[i]`: the
+    leading axes are carried along pointwise by numpy).  `s` is the `ndarray` view of the input — for `Lsquared` / `Lz` of the
+    copy the method works on in place —, `o` the view of the output; `X.index(ell, m)` is `Modes_index` below, generated from
+    `index` with each `raise ValueError` turned into the impossible index `-1` (`Props/GenDiff.lean` proves the guards never
+    fire inside these loops); `self.<attr>` / `d.<attr>` are parameters; a slice statement `o[..., a:b] = c * s[..., a':b']` is
+    the loop over its `b - a` elements. -/
+set_option linter.unusedVariables false
+namespace Gen
+section
+open Scalar
+variable {α : Type} [Scalar α] {φ : Type} [FMem φ α]
+"""
+
+
+class _DiffRewrite(ast.NodeTransformer):
+    """X.index(a, b) -> Modes_index(X_spin_weight, X_ell_min, X_ell_max, a, b);  X.attr -> X_attr;  A[..., e] -> A[e]"""
+
+    def visit_Call(self, node):
+        node = self.generic_visit(node)
+        f = node.func
+        if isinstance(f, ast.Name) and f.id.endswith("_index") and f.id[:-6] in ("self", "d") and len(node.args) == 2:
+            x = f.id[:-6]
+            return ast.Call(func=ast.Name(id="Modes_index", ctx=ast.Load()),
+                            args=[ast.Name(id=f"{x}_spin_weight", ctx=ast.Load()), ast.Name(id=f"{x}_ell_min", ctx=ast.Load()),
+                                  ast.Name(id=f"{x}_ell_max", ctx=ast.Load())] + node.args, keywords=[])
+        return node
+
+    def visit_Attribute(self, node):
+        node = self.generic_visit(node)
+        if isinstance(node.value, ast.Name) and node.value.id in ("self", "d"):
+            return ast.Name(id=f"{node.value.id}_{node.attr}", ctx=node.ctx)
+        return node
+
+    def visit_Subscript(self, node):
+        node = self.generic_visit(node)
+        sl = node.slice
+        if isinstance(sl, ast.Tuple) and len(sl.elts) == 2 and isinstance(sl.elts[0], ast.Constant) and sl.elts[0].value is Ellipsis:
+            return ast.Subscript(value=node.value, slice=sl.elts[1], ctx=node.ctx)
+        return node
+
+
+def _slice_bounds(sub):
+    if not (isinstance(sub, ast.Subscript) and isinstance(sub.slice, ast.Slice) and sub.slice.step is None and isinstance(sub.value, ast.Name)):
+        return None
+    return sub.value.id, sub.slice.lower, sub.slice.upper
+
+
+class _Deslice(ast.NodeTransformer):
+    """slice statements over the last axis -> explicit element loops"""
+    count = 0
+
+    def loop(self, lo, hi, body):
+        _Deslice.count += 1
+        return ast.For(target=ast.Name(id="k_", ctx=ast.Store()),
+                       iter=ast.Call(func=ast.Name(id="range", ctx=ast.Load()), args=[ast.BinOp(left=hi, op=ast.Sub(), right=lo)], keywords=[]),
+                       body=[body], orelse=[])
+
+    @staticmethod
+    def elem(name, lo, ctx):
+        return ast.Subscript(value=ast.Name(id=name, ctx=ast.Load()),
+                             slice=ast.BinOp(left=lo, op=ast.Add(), right=ast.Name(id="k_", ctx=ast.Load())), ctx=ctx)
+
+    def visit_AugAssign(self, node):
+        b = _slice_bounds(node.target)
+        if b is None:
+            return node
+        name, lo, hi = b
+        if any(_slice_bounds(x) for x in ast.walk(node.value)):
+            raise TranslationError(f"slice statement {ast.unparse(node)}")
+        return self.loop(lo, hi, ast.AugAssign(target=self.elem(name, lo, ast.Store()), op=node.op, value=node.value))
+
+    def visit_Assign(self, node):
+        if len(node.targets) != 1:
+            return node
+        b = _slice_bounds(node.targets[0])
+        if b is None:
+            return node
+        name, lo, hi = b
+        outer = self
+
+        class R(ast.NodeTransformer):
+            def visit_Subscript(s2, sub):
+                bb = _slice_bounds(sub)
+                if bb is None:
+                    return s2.generic_visit(sub)
+                return outer.elem(bb[0], bb[1], ast.Load())      # same length (numpy raises otherwise): element k of each slice
+        return self.loop(lo, hi, ast.Assign(targets=[self.elem(name, lo, ast.Store())], value=R().visit(node.value)))
+
+
+def generate_diffkern(fns, gen_dir, write_if_changed):
+    dpath = "spherical/modes/derivatives.py"
+    dtree = ast.parse(open(os.path.join(REPO, dpath), encoding="utf-8").read())
+    utree = ast.parse(open(os.path.join(REPO, "spherical/modes/utilities.py"), encoding="utf-8").read())
+    out = [DIFF_HEADER]
+    # ---- Modes.index, with `raise` -> the impossible index -1 -----------------------------------------------------------
+    fdI = find_function(utree, "index")
+    if [a.arg for a in fdI.args.args] != ["self", "ell", "m"]:
+        raise TranslationError("modes/utilities.py index: signature")
+    body = []
+    for s in fdI.body:
+        if isinstance(s, ast.Expr) and isinstance(s.value, ast.Constant):
+            continue
+        if isinstance(s, ast.ImportFrom):
+            if [a.name for a in s.names] != ["LM_index"]:
+                raise TranslationError(f"index: {ast.unparse(s)}")
+            continue
+        body.append(s)
+
+    class IR(ast.NodeTransformer):
+        def visit_Raise(self, node):
+            return ast.Return(value=ast.Constant(value=-1))
+
+        def visit_Attribute(self, node):
+            if isinstance(node.value, ast.Name) and node.value.id == "self":
+                return ast.Name(id=node.attr, ctx=node.ctx)
+            return node
+
+        def visit_Name(self, node):
+            return ast.Name(id="Yindex", ctx=node.ctx) if node.id == "LM_index" else node
+    # `LM_index` is `Yindex` (spherical/__init__.py)
+    isrc = open(os.path.join(REPO, "spherical/__init__.py"), encoding="utf-8").read()
+    if "LM_total_size, LM_range, LM_index = Ysize, Yrange, Yindex" not in isrc:
+        raise TranslationError("spherical/__init__.py: LM_index is no longer Yindex")
+    body = [ast.fix_missing_locations(IR().visit(s)) for s in body]
+    params = [("spin_weight", "int"), ("ell_min", "int"), ("ell_max", "int"), ("ell", "int"), ("m", "int")]
+    tr = Tr(Ctx(fns, None), dict(params))
+    out.append("/-- `Modes.index(ell, m)` of an object with the given metadata; `-1` where the method raises ValueError -/\n"
+               + py2lean.emit_fn("Modes_index", params, tr.block(body, [], 1), None))
+    fns["Modes_index"] = py2lean.Fn("Modes_index", params, {}, body, "spherical/modes/utilities.py")
+    # the class property `ell_min` is the constant 0
+    msrc = ast.parse(open(os.path.join(REPO, "spherical/modes/__init__.py"), encoding="utf-8").read())
+    fdm = find_function(msrc, "ell_min", "Modes")
+    rets = [s for s in fdm.body if isinstance(s, ast.Return)]
+    if len(rets) != 1 or ast.unparse(rets[0].value) != "0":
+        raise TranslationError("Modes.ell_min is no longer the constant 0")
+    sig = {}
+    prelude = {
+        "Lsquared": (["import numpy as np", "d = self.copy()", "s = d.view(np.ndarray)"], "d"),
+        "Lz": (["import numpy as np", "d = self.copy()", "s = d.view(np.ndarray)"], "d"),
+        "Lplus": (["import math", "import numpy as np", "d = np.zeros_like(self)", "s = self.view(np.ndarray)", "o = d.view(np.ndarray)"], "self"),
+        "Lminus": (["import math", "import numpy as np", "d = np.zeros_like(self)", "s = self.view(np.ndarray)", "o = d.view(np.ndarray)"], "self"),
+    }
+    for name in ["Lsquared", "Lz", "Lplus", "Lminus", "Rplus", "Rminus"]:
+        fd = find_function(dtree, name)
+        stmts = [s for s in fd.body if not (isinstance(s, ast.Expr) and isinstance(s.value, ast.Constant))]
+        loops = [s for s in stmts if isinstance(s, ast.For)]
+        if len(loops) != 1 or stmts[-1] is not None and ast.unparse(stmts[-1]) != "return d" or stmts[-2] is not loops[0]:
+            raise TranslationError(f"derivatives.{name}: expected  <prelude>; for ell in …; return d")
+        pre = [nfkc(ast.unparse(s)) for s in stmts[:-2]]
+        if name in prelude:
+            if pre != prelude[name][0]:
+                raise TranslationError(f"derivatives.{name}: prelude {pre}")
+        else:
+            sign = "-" if name == "Rplus" else "+"
+            want = ["import math", "import numpy as np", "metadata = copy.copy(self._metadata)",
+                    f"metadata['spin_weight'] = self.spin_weight {sign} 1",
+                    f"metadata['ell_min'] = min(abs(self.spin_weight {sign} 1), self.ell_min)",
+                    "metadata['ell_max'] = self.ell_max", "shape = list(self.shape)",
+                    "shape[-1] = LM_total_size(metadata['ell_min'], metadata['ell_max'])",
+                    "d = type(self)(np.zeros_like(self.view(np.ndarray), shape=tuple(shape)), **metadata)",
+                    "s = self.view(np.ndarray)", "o = d.view(np.ndarray)"]
+            if pre != want:
+                raise TranslationError(f"derivatives.{name}: prelude {pre}")
+        # method calls X.index(...) -> names the rewriter understands
+        loop = loops[0]
+
+        class M(ast.NodeTransformer):
+            def visit_Call(self, node):
+                node = self.generic_visit(node)
+                f = node.func
+                if isinstance(f, ast.Attribute) and f.attr == "index" and isinstance(f.value, ast.Name) and f.value.id in ("self", "d"):
+                    return ast.Call(func=ast.Name(id=f.value.id + "_index", ctx=ast.Load()), args=node.args, keywords=[])
+                return node
+        import copy as _copy
+        loop = M().visit(_copy.deepcopy(loop))
+        loop = _DiffRewrite().visit(loop)
+        loop = _Deslice().visit(loop)
+        ast.fix_missing_locations(loop)
+        used = sorted({n.id for n in ast.walk(loop) if isinstance(n, ast.Name)} - {"range", "abs", "max", "min", "math", "Modes_index", "ell", "m", "k_"})
+        arrs = [a for a in ("s", "o") if a in used]
+        ints = [u for u in used if u not in arrs]
+        # for Lsquared / Lz the object `d` is a copy of `self`: same metadata
+        if name in ("Lsquared", "Lz"):
+            class DS(ast.NodeTransformer):
+                def visit_Name(self, node):
+                    return ast.Name(id="self_" + node.id[2:], ctx=node.ctx) if node.id.startswith("d_") else node
+            loop = DS().visit(loop)
+            ints = sorted({("self_" + u[2:]) if u.startswith("d_") else u for u in ints})
+        fsrc = f"def {name}_loop({', '.join(arrs + ints)}):\n    pass\n"
+        fdk = ast.parse(fsrc).body[0]
+        fdk.body = [loop]
+        ast.fix_missing_locations(fdk)
+        k, txt = KTr(fns, {}, set(), fdk, complex_arrays=set(arrs)).translate(lean_name=f"Modes_{name}_loop")
+        out.append(f"/-- the loop of `Modes.{name}`:\n\n" + "\n".join("      " + l for l in nfkc(ast.unparse(loops[0])).splitlines()) + " -/\n" + txt)
+        sig[k.name] = [(p, k.kinds[p]) for p in k.params]
+    out.append("end\nend Gen\n")
+    write_if_changed(os.path.join(gen_dir, "DiffKern.lean"), "\n".join(out))
+    return sig
